@@ -3,6 +3,7 @@ Line-protocol driver for the executable world model (`spdriver`).
 Reads scenarios from stdin, prints the canonical observation stream to stdout.
 -/
 import SimProc.Model.World
+import SimProc.Model.System
 import Std.Data.HashMap
 open SimProc
 
@@ -255,6 +256,13 @@ structure DState where
   w : World := {}
   nrec : Nat := 0
   last : Std.HashMap String String := {}
+  sysm : SysM := {}
+
+def parseCls : String → Cls
+  | "processor" => .processor | "sink" => .sink | "buffer" => .buffer | "source" => .source
+  | "maint" => .maint | _ => .handler
+
+def parseOptCls (s : String) : Option Cls := if s == "-" then none else some (parseCls s)
 
 /-- Key of a state line for delta printing: tag, plus the index for indexed lines. -/
 def lineKey (l : String) : String :=
@@ -347,6 +355,26 @@ def handle (s : DState) (toks : List String) : IO DState := do
     let s ← runIO { s with w := w } 0
     IO.println s!"ran {s.w.env.now}"
     return s
+  | "S" :: rest =>
+    let op : Option SOp := match rest with
+      | ["new"] => some .new
+      | ["asset", c, n] => some (.asset (parseCls c) (parseNat n))
+      | ["simulate", i] => some (.simulate (parseNat i))
+      | ["find", i, n, id, t, st] =>
+        some (.find (parseNat i) (parseOptNat n) (parseOptNat id) (parseOptCls t) (parseOptCls st))
+      | _ => none
+    match op with
+    | none =>
+      if rest == ["counts"] then
+        IO.println ("scount " ++ joinS (s.sysm.infos.map (fun a => toString a.initCount)))
+        return s
+      else IO.println "model-error bad-op"; return s
+    | some op =>
+      let (m, r) := s.sysm.apply op
+      IO.println (match r with
+        | .ok => "sres ok" | .err => "sres err RuntimeError"
+        | .found l => "sres found " ++ joinS (l.map toString))
+      return { s with sysm := m }
   | ["end"] => IO.println "end"; return s
   | [] => return s
   | "idoff" :: _ => return s
